@@ -337,7 +337,15 @@ def compare(case, recs, final, reopened, final_ls, model, spec, prop):
             break
         # results and contents vs the Spec (list-level properties own these; here they only stop the case)
         if rec["out"] != s_out or got_contents != s_contents:
-            out.append(("foreign", [], i, f"list-level disagreement at op {i}: {rec['out'][:80]} vs {s_out[:80]}"))
+            if case.get("giant"):
+                # no list-level family reaches this size: the disagreement is reported here (the file holds what the live
+                # database holds — and that is not what the operations mean)
+                out.append(("impl-vs-spec", ["C04"], i,
+                            f"after `{V.sx(rec['op'])[:120]}` over {len(rec['contents'])} rows: answer {rec['out'][:60]} (the operation's "
+                            f"meaning gives {s_out[:60]}); the database and its file hold {len(rec['contents'])} rows, expected "
+                            f"{s_contents.count('(')} "))
+            else:
+                out.append(("foreign", [], i, f"list-level disagreement at op {i}: {rec['out'][:80]} vs {s_out[:80]}"))
             break
         failed = rec["out"].startswith("err")
         if name not in MUTATING or (failed and name != "ins") or (name in ("remove", "drop", "update") and rec["out"] == "ok 0"):
